@@ -60,7 +60,7 @@ CLAIMED = {
 }
 CLAIMED_EXTRA = {"C20": ("exhaustive / dense grids over the documented fixed-point domains evaluated as arrays + proptest sweeps; oracle = f64 evaluation of the exact function with tolerances taken from the repository's own claims; compiled vs plaintext up to truncation error",
          "Exhaustive grids (Newton inversion caps 8-16, inverse sqrt caps 4-8, Goldschmidt all pairs at cap 8, Taylor exponent all inputs at p=10, PWL exponent/sigmoid/GeLU at precision 8-10 for 4/5/6 log-buckets, tails at p=15, FixedMultiply grids) and generated sweeps; every point compared with the real function within the tolerance the repository's tests/comments claim (never fitted to measured output); compiled versions vs plaintext within the accumulated truncation error on coarser grids.",
-         "Trusted: f64 reference; tolerances as claimed by the repository. Four defects found here were repaired (fix: commits f3d603b, ab78b38, b23f816, 7186c53); four accuracy/documentation discrepancies are recorded known findings."),
+         "Trusted: f64 reference; tolerances as claimed by the repository. Three defects found here were repaired (fix: commits f3d603b, ab78b38, b23f816); five accuracy/documentation discrepancies are recorded known findings."),
 "C19": ("proptest-generated table pairs vs an independent reference join written from the documentation; compiled join vs plaintext (global evaluator) and three-party execution",
          "Random search with shrinking plus a fixed grid: pairs of tables (null rows anywhere, 1-3 key columns of differing types/shapes, renamed key headers, payload columns, overlap patterns, masked variant with masked key entries) x 4 join types: result type (column order, row count), null column, masks, data and zero filling equal to refjoin; compiled join equals plaintext under 2 seeds (documented cuckoo abort tolerated and counted); three-party execution gives every listed party the plaintext table / consistent shares.",
          "Trusted: refjoin (harness reading of the Graph::join docs); execution model of runtime.md. Six defects found here were repaired (fix: commits c5d7fe6, f2e4c09, 316a69d, 7e82556, 810c9d0, 581807a).")}
